@@ -301,12 +301,15 @@ let () =
                             fail p.pstep "C03" "corr"
                               (Printf.sprintf "canonical_count (from sem_edge) = %d differs from the diagram built from the value table (%d nodes)"
                                  (int_of_n cc) built)
-                          else if kname = "bdd" || kname = "bcdd" then (
-                            (* the textbook count (no diagram is built): distinct subfunctions (BCDD: up to complement)
-                               that depend on their first level + distinct values (BCDD: + the terminal), extracted
-                               [canon_size_bdd] / [canon_size_bcdd] (theorems C03_node_count_canonical_size...) *)
+                          else (
+                            (* the textbook count (no diagram is built): distinct subfunctions that depend on their
+                               first level + distinct values (BCDD: up to complement, + the terminal; ZBDD: sub-families
+                               with a non-empty then-part, + the reachable terminals), extracted [canon_size_bdd] /
+                               [canon_size_bcdd] / [canon_size_zbdd] (theorems C03_node_count_canonical_size...) *)
                             stat "nc_canon_size" 1;
-                            let cs = int_of_n ((if kname = "bdd" then Model.canon_size_bdd else Model.canon_size_bcdd) (Model.nlevels sn) f) in
+                            let csf = (match kname with "bdd" -> Model.canon_size_bdd | "bcdd" -> Model.canon_size_bcdd
+                                                      | _ -> Model.canon_size_zbdd) in
+                            let cs = int_of_n (csf (Model.nlevels sn) f) in
                             if cs <> int_of_string k then
                               fail p.pstep "C03" "prop"
                                 (Printf.sprintf "node_count reports %s but the function %s has %d distinct essential subfunctions + values under the current order"
